@@ -144,7 +144,7 @@ func (rt *Runtime) Invoke(ctx context.Context, svc, method string, payload any) 
 	sc := st.script
 	rt.mu.Unlock()
 	if e := sc.Error; e != nil {
-		return nil, "", rt.buildError(s, e)
+		return nil, "", rt.buildError(s, method, e)
 	}
 	mi := s.Methods[method]
 	if mi == nil || mi.ResultType == nil {
@@ -157,7 +157,7 @@ func (rt *Runtime) Invoke(ctx context.Context, svc, method string, payload any) 
 	return rv.Interface(), sc.View, nil
 }
 
-func (rt *Runtime) buildError(s *ServiceInfo, e *scriptedError) error {
+func (rt *Runtime) buildError(s *ServiceInfo, method string, e *scriptedError) error {
 	switch e.Kind {
 	case "plain":
 		return errors.New(e.Message)
@@ -166,26 +166,35 @@ func (rt *Runtime) buildError(s *ServiceInfo, e *scriptedError) error {
 	case "wrapped-service":
 		return fmt.Errorf("wrapped: %w", &goa.ServiceError{Name: e.Name, ID: "verifid", Message: e.Message, Timeout: e.Timeout, Temporary: e.Temporary, Fault: e.Fault})
 	case "declared":
-		if mk, ok := s.MakeError[e.Name]; ok {
+		key := method + ":" + e.Name
+		if _, ok := s.MakeError[key]; !ok {
+			if _, ok := s.ErrorTypes[key]; !ok {
+				key = e.Name // service or API level
+			}
+		}
+		if mk, ok := s.MakeError[key]; ok {
 			out := reflect.ValueOf(mk).Call([]reflect.Value{reflect.ValueOf(errors.New(e.Message))})
 			return out[0].Interface().(error)
 		}
-		if t, ok := s.ErrorTypes[e.Name]; ok {
+		if t, ok := s.ErrorTypes[key]; ok {
 			var att *design.Att
 			for _, ds := range rt.Design.Services {
 				if ds.Name != s.Name {
 					continue
 				}
+				for _, ed := range ds.Errors {
+					if ed.Name == e.Name {
+						att = ed.Type
+					}
+				}
 				for _, m := range ds.Methods {
+					if m.Name != method {
+						continue
+					}
 					for _, ed := range m.Errors {
 						if ed.Name == e.Name {
 							att = ed.Type
 						}
-					}
-				}
-				for _, ed := range ds.Errors {
-					if ed.Name == e.Name {
-						att = ed.Type
 					}
 				}
 			}
@@ -378,7 +387,7 @@ type errInfo struct {
 	Fault     *bool  `json:"fault,omitempty"`
 }
 
-func (rt *Runtime) describeError(s *ServiceInfo, err error) *errInfo {
+func (rt *Runtime) describeError(s *ServiceInfo, method string, err error) *errInfo {
 	ei := &errInfo{GoType: fmt.Sprintf("%T", err), Message: err.Error()}
 	if n, ok := err.(goa.GoaErrorNamer); ok {
 		ei.Name = n.GoaErrorName()
@@ -390,18 +399,37 @@ func (rt *Runtime) describeError(s *ServiceInfo, err error) *errInfo {
 			ei.Name = se.Name
 		}
 	} else if s != nil {
-		for name, t := range s.ErrorTypes {
-			if reflect.TypeOf(err) == t {
-				var att *design.Att
-				for _, m := range s.methodAtt {
-					for _, ed := range m.Errors {
-						if ed.Name == name {
-							att = ed.Type
+		for key, t := range s.ErrorTypes {
+			if reflect.TypeOf(err) != t {
+				continue
+			}
+			name := key
+			if i := strings.LastIndex(key, ":"); i >= 0 {
+				if key[:i] != method {
+					continue
+				}
+				name = key[i+1:]
+			}
+			var att *design.Att
+			if m := s.methodAtt[method]; m != nil {
+				for _, ed := range m.Errors {
+					if ed.Name == name {
+						att = ed.Type
+					}
+				}
+			}
+			if att == nil {
+				for _, ds := range rt.Design.Services {
+					if ds.Name == s.Name {
+						for _, ed := range ds.Errors {
+							if ed.Name == name {
+								att = ed.Type
+							}
 						}
 					}
 				}
-				ei.Value = rt.ToJSON(att, reflect.ValueOf(err))
 			}
+			ei.Value = rt.ToJSON(att, reflect.ValueOf(err))
 		}
 	}
 	return ei
@@ -467,7 +495,7 @@ func (rt *Runtime) exec(c *command) (obs observation) {
 		endpoint := ep.Call(nil)[0].Interface().(goa.Endpoint)
 		res, err := endpoint(context.Background(), payload)
 		if err != nil {
-			obs.ClientError = rt.describeError(s, err)
+			obs.ClientError = rt.describeError(s, c.Method, err)
 		} else if res != nil {
 			rv := reflect.ValueOf(res)
 			obs.ClientResult = rt.ToJSON(m.Result, rv)
